@@ -7,14 +7,60 @@ from lib.dslgen import S, T
 FAMILIES = ("graph",)
 
 
-def gen_models(ctx, n):
+def gen_models(ctx, n, pid=None):
     rng = ctx.rng
     ms = []
     for i in range(n):
+        wc = rng.choice([0.15, 0.35, 0.5]) if pid == "C11" else 0.15
         ms.append(gg.gen_graph_model(rng, profile=rng.choice(["acyclic", "acyclic", "cyclic", "mixed"]),
-                                     max_types=rng.choice([2, 3, 4]), max_rels=rng.choice([2, 3, 4]), depth=rng.choice([1, 2, 2])))
+                                     max_types=rng.choice([2, 3, 4]), max_rels=rng.choice([2, 3, 4]), depth=rng.choice([1, 2, 2]),
+                                     wildcards=wc))
     ms += handmade()
+    if pid == "C11":
+        ms += wild_cycles(rng, max(40, n // 6))
     return ms
+
+
+def wild_cycles(rng, n):
+    """tuple cycles through usersets and tuple-to-usersets whose members carry DIFFERENT public types, entered from
+    outside relations: wildcard lists of the edges inside the cycle are complete only after the cycle is resolved"""
+    out = []
+    pub = ["user", "employee", "robot", "guest"]
+    for _ in range(n):
+        k = rng.choice([2, 2, 3, 4])
+        rels = ["r%d" % i for i in range(k)]
+        use_ttu = rng.random() < 0.4
+        types = [[S(t), [], []] for t in pub]
+        rl, ml = [], []
+        if use_ttu:
+            rl.append([S("parent"), [1, 1]])
+            ml.append([S("parent"), [[[S("grp"), [0], []]], [], []]])
+        for i, r in enumerate(rels):
+            nxt = rels[(i + 1) % k]
+            refs = []
+            for t in rng.sample(pub, rng.choice([1, 1, 2])):
+                refs.append([S(t), [2] if rng.random() < 0.7 else [0], []])
+            if not any(x[1] == [0] or x[1] == [2] for x in refs):
+                refs.append([S("user"), [0], []])
+            if use_ttu and rng.random() < 0.5:
+                u = [4, [1, 1], [3, S("parent"), S(nxt)]]
+            else:
+                refs.append([S("grp"), [1, S(nxt)], []])
+                u = [1, 1]
+            rng.shuffle(refs)
+            rl.append([S(r), u])
+            ml.append([S(r), [refs, [], []]])
+        # relations outside the cycle that lead into it
+        for j in range(rng.choice([0, 1, 2])):
+            tgt = rng.choice(rels)
+            rl.append([S("out%d" % j), rng.choice([[2, S(tgt)], [4, [1, 1], [2, S(tgt)]]])])
+            ml.append([S("out%d" % j), [[[S(rng.choice(pub)), [2] if rng.random() < 0.5 else [0], []]], [], []]])
+        order = list(zip(rl, ml))
+        rng.shuffle(order)
+        types.append([S("grp"), [x[0] for x in order], [[[x[1] for x in order], [], []]]])
+        rng.shuffle(types)
+        out.append([S("1.1"), types, []])
+    return out
 
 
 def handmade():
@@ -211,7 +257,7 @@ def run_for(ctx, pid):
                        "inner map iteration orders of AssignWeights are sampled by repetition, not driven"]
     gc.replay_known(ctx)
     n = 350 if ctx.tier == "quick" else 8000
-    models = gen_models(ctx, n)
+    models = gen_models(ctx, n, pid)
     if pid == "C06":
         # the inner map iteration orders of AssignWeights can only be sampled: many repetitions per model
         res = gc.run_graph(ctx, models, n_orders=8 if ctx.tier == "quick" else 16, repeat=40 if ctx.tier == "quick" else 300,
